@@ -1980,11 +1980,26 @@ func getIndexMap(n *node) {
 	}
 }
 
+// genValueDefine returns the function giving the destination n of an assignment. In a define
+// statement, a variable which is not redeclared is created at each execution: the previous
+// one may be referenced by a pointer or a closure.
+func genValueDefine(n *node) func(*frame) reflect.Value {
+	if n.anc.kind != defineXStmt || n.redeclared || n.ident == "_" {
+		return genValue(n)
+	}
+	i, l := n.findex, n.level
+	return func(f *frame) reflect.Value {
+		data := getFrame(f, l).data
+		data[i] = reflect.New(data[i].Type()).Elem()
+		return data[i]
+	}
+}
+
 // getIndexMap2 retrieves map value from index and set status.
 func getIndexMap2(n *node) {
-	dest := genValue(n.anc.child[0])   // result
-	value0 := genValue(n.child[0])     // map
-	value2 := genValue(n.anc.child[1]) // status
+	dest := genValueDefine(n.anc.child[0])   // result
+	value0 := genValue(n.child[0])           // map
+	value2 := genValueDefine(n.anc.child[1]) // status
 	next := getExec(n.tnext)
 	doValue := n.anc.child[0].ident != "_"
 	doStatus := n.anc.child[1].ident != "_"
@@ -3849,9 +3864,9 @@ func recv(n *node) {
 }
 
 func recv2(n *node) {
-	vchan := genValue(n.child[0])    // chan
-	vres := genValue(n.anc.child[0]) // result
-	vok := genValue(n.anc.child[1])  // status
+	vchan := genValue(n.child[0])          // chan
+	vres := genValueDefine(n.anc.child[0]) // result
+	vok := genValueDefine(n.anc.child[1])  // status
 	tnext := getExec(n.tnext)
 
 	if n.interp.cancelChan {
